@@ -36,7 +36,7 @@ def build_call(u, T):
     else:
         rt = None
     # every blocking entry point shares the deadline logic but has its own timeout mapping in the Python layer
-    op = ("get", "get", "get", "get_many", "getnext", "getbulk", "get", "fetch")[u.below(8)]
+    op = ("get", "get", "get", "get_many", "getnext", "getbulk", "refresh", "fetch")[u.below(8)]
     return {"strays": strays, "reply": reply, "reply_at": None if rt is None else round(rt, 4), "op": op}
 
 
@@ -71,6 +71,11 @@ def run_schedule(args):
     def sync_call(s, op):
         if cfg.version == "v1" and op in ("getbulk",):
             op = "getnext"
+        if op == "refresh" and cfg.version != "v3":
+            op = "get"
+        if op == "refresh":
+            s.refresh()
+            return 4242
         if op == "get":
             return s.get("1.3.6.1.2.1.1.3.0")
         if op == "get_many":
@@ -81,6 +86,11 @@ def run_schedule(args):
     async def async_call(s, op):
         if cfg.version == "v1" and op in ("getbulk",):
             op = "getnext"
+        if op == "refresh" and cfg.version != "v3":
+            op = "get"
+        if op == "refresh":
+            await s.refresh()
+            return 4242
         if op == "get":
             return await s.get("1.3.6.1.2.1.1.3.0")
         if op == "get_many":
@@ -92,6 +102,12 @@ def run_schedule(args):
         return sorted([(t, "stray") for t in call["strays"]] + ([(call["reply_at"], "reply")] if call["reply_at"] is not None else []))
 
     def emit(req, kind):
+        probe = req["pdu_tag"] == rb.PDU_GET and not req["varbinds"]
+        if probe:
+            # refresh(): answered by a Report; a stray is a Report for another msgID
+            if kind == "reply":
+                return ag.build_report(cfg, req, cfg.engine_id, 5, 1000)
+            return ag.build_report(cfg, req, cfg.engine_id, 5, 1000, msg_id=(req["msg_id"] ^ 0x55) & 0x7FFFFFFF)
         if kind == "reply":
             return ag.build_reply(cfg, req, vb)
         if sched["stray_kind"] == "reqid":
@@ -284,6 +300,12 @@ def run(rep, tier):
             canon.append({"T": T, "ver": "v2c", "driver": drv, "stray_kind": "reqid",
                           "calls": [{"strays": [round(0.7 * T, 4)], "reply": "none", "reply_at": None},
                                     {"strays": [], "reply": "early", "reply_at": round(0.6 * T, 4)}]})
+            # ... and neither must a call that skipped a datagram and then *succeeded*
+            canon.append({"T": T, "ver": "v2c", "driver": drv, "stray_kind": "reqid",
+                          "calls": [{"strays": [round(0.55 * T, 4)], "reply": "early", "reply_at": round(0.68 * T, 4), "op": "get"},
+                                    {"strays": [], "reply": "early", "reply_at": round(0.7 * T, 4), "op": "get"},
+                                    {"strays": [round(0.6 * T, 4)], "reply": "early", "reply_at": round(0.7 * T, 4), "op": "get_many"},
+                                    {"strays": [], "reply": "early", "reply_at": round(0.7 * T, 4), "op": "getnext"}]})
     scheds = canon + scheds
     ctx = mp.get_context("spawn")
     import concurrent.futures as cf
